@@ -125,6 +125,11 @@ def st_case(draw):
             burst += [json.dumps(["REQ", "x", {"kinds": [1]}]), json.dumps(second)]
         frames[pos:pos] = burst
         n = len(frames)
+    if draw(st.integers(0, 3)) == 0:
+        # a correct NIP-42 answer somewhere in the sequence (built at run time from the connection's challenge; only
+        # meaningful when authentication is enabled): the connection changes identity while it holds subscriptions
+        frames.insert(draw(st.integers(0, len(frames))), "@@VALID-AUTH@@%d" % draw(st.integers(0, 2)))
+        n = len(frames)
     probes = draw(st.lists(st.integers(0, n), min_size=1, max_size=3, unique=True))
     return {"backend": draw(st.sampled_from(["kv", "sql"])), "auth": draw(st.sampled_from([False, False, True])),
             "limit": draw(st.sampled_from([None, None, "2/s", "1000/s"])), "frames": frames, "probe_at": sorted(probes),
@@ -202,6 +207,7 @@ class Robust(Sub):
             rl = RateLimiter({"ip": {"EVENT": case["limit"], "REQ": case["limit"]}}) if case["limit"] else None
             if rl:
                 labels.append("limit:" + case["limit"])
+            subs_before = sum(len(v) for v in rig.storage.clients.values())
             a = rig.conn("10.0.0.1", rate_limiter=rl)
             nt = False
             for i, raw in enumerate(case["frames"]):
@@ -212,6 +218,13 @@ class Robust(Sub):
                 if a.closed is not None or a.task.done():
                     labels.append("closed-by-relay")
                     break
+                if raw.startswith("@@VALID-AUTH@@"):
+                    first = a.frames()[:1]
+                    if not (first and first[0][0] == "AUTH"):
+                        continue   # authentication is off: no challenge was sent
+                    labels.append("valid-auth-mid-sequence")
+                    raw = json.dumps(["AUTH", E.make(int(raw[-1]), 22242, int(rig.clock.now), [
+                        ["relay", "ws://localhost:6969"], ["challenge", first[0][1]]], "")])
                 if gate(raw):
                     nt = True
                 a.feed(raw, case["turns"])
@@ -249,8 +262,10 @@ class Robust(Sub):
                                   exc=a.log.exceptions[-1][1][-400:]))
                 from props.c13 import _client_id
 
-                if _client_id(rig, a) is not None and rig.storage.clients.get(_client_id(rig, a)):
-                    viol.append(V("subscriptions-leaked", "when a connection ends all its subscriptions are dropped"))
+                subs_after = sum(len(v) for v in rig.storage.clients.values())
+                if (_client_id(rig, a) is not None and rig.storage.clients.get(_client_id(rig, a))) or subs_after > subs_before:
+                    viol.append(V("subscriptions-leaked", "when a connection ends all its subscriptions are dropped",
+                                  registered_before=subs_before, registered_after=subs_after))
                 await rig.settle()
                 left = len([t for t in asyncio.all_tasks() if not t.done()])
                 if left > base_tasks and not rig.stuck:
